@@ -51,6 +51,7 @@ type Event struct {
 type Result struct {
 	Ok    bool   `json:"ok"`
 	Err   string `json:"err"`
+	ErrC  string `json:"errc"`
 	Panic bool   `json:"panic"`
 	// RealSlash: the fraction x/staking passed to the hook, and what it burned
 	Feff   string `json:"feff"`
@@ -115,6 +116,12 @@ func (w *World) signer(s string) string {
 
 // Exec runs one event on the world and returns its result. It never panics for reasons inside the code under test.
 func (w *World) Exec(e Event) Result {
+	r := w.exec(e)
+	r.ErrC = errClass(r.Err)
+	return r
+}
+
+func (w *World) exec(e Event) Result {
 	k := w.App.AllianceKeeper
 	sk := w.App.StakingKeeper
 	switch e.Ev {
